@@ -498,7 +498,7 @@ open SafeC Gen
 /-!
 # C04 for `getenv_s` and `strerror_s`: a failed call leaves no partial result in dest
 
-Same setting as `Props/C03ExtOs.lean` (declared extents only, arbitrary prior dest content).  Every non-EOK exit on a
+Same setting as section `PartOs` of `Props/C03Ext.lean` (declared extents only, arbitrary prior dest content).  Every non-EOK exit on a
 usable dest stores `dest[0] = 0`; with null-slack all `dmax` cells are zero; cells outside `dest[0..dmax)` are
 unchanged and nothing outside the declared extents is touched.  Exactly one handler event, carrying the returned code —
 except the "variable not set" exit of `getenv_s` (-1), which by design reports nothing.
